@@ -21,14 +21,14 @@ var Fields = []string{"a", "b", "n", "n.x"}
 
 func Ids() []types.Value {
 	return []types.Value{types.NewInt(1), types.NewInt(2), types.NewInt(3), types.NewInt(4), types.NewInt(5),
-		types.NewString("1"), types.NewInt64(1)}
+		types.NewString("1"), types.NewInt64(1), types.NewInt32(1), types.NewUint(2)}
 }
 
 // Scalars is the value alphabet of the fields (ordered: nil < false/true < ints by width < float < strings < slice < map).
 func Scalars() []types.Value {
 	return []types.Value{
 		types.NewInt(1), types.NewInt(2), types.NewInt(3), types.NewInt(2), types.NewInt(1),
-		types.NewInt64(2), types.NewFloat64(math.Float64frombits(0x4000000000000000)),
+		types.NewInt64(2), types.NewInt8(2), types.NewInt32(1), types.NewUint(2), types.NewFloat64(math.Float64frombits(0x4000000000000000)),
 		types.NewString(""), types.NewString("a"), types.NewString("b"), types.True,
 		types.NewSlice(types.NewInt(1)),
 	}
